@@ -199,6 +199,11 @@ def _shapes(v1=False, seed=7):
     out.append(Shape("advance.early-partial", "advanceBlockchain", adv,
                      post=lambda d: d.adv_policy.update(stop_after=(1, "partial"),
                                                         ask_brothers=False), baseline=1))
+    # ... or move on before a header was sent in full (a block it has validated before:
+    # everything past the merge-mining header is skipped)
+    out.append(Shape("advance.header-cut-short-partial", "advanceBlockchain", adv,
+                     post=lambda d: d.adv_policy.update(header_stop={0: 100, 1: 1},
+                                                        final="partial"), baseline=1))
     out.append(Shape("reset", "resetAdvanceBlockchain",
                      {"command": "resetAdvanceBlockchain", "version": 5}))
     out.append(Shape("state", "blockchainState", {"command": "blockchainState", "version": 5}))
@@ -210,6 +215,10 @@ def _shapes(v1=False, seed=7):
                      {"command": "updateAncestorBlock", "version": 5,
                       "blocks": [b["raw"].hex() for b in ub]},
                      post=lambda d: d.adv_policy.update(stop_after=(2, "total"))))
+    out.append(Shape("updateAncestor.header-cut-short", "updateAncestorBlock",
+                     {"command": "updateAncestorBlock", "version": 5,
+                      "blocks": [b["raw"].hex() for b in ub]},
+                     post=lambda d: d.adv_policy.update(header_stop={1: 80})))
     out.append(Shape("parameters", "blockchainParameters",
                      {"command": "blockchainParameters", "version": 5}))
     out.append(Shape("signerHeartbeat", "signerHeartbeat",
